@@ -166,7 +166,7 @@ def adaptive_model(elfi, tape, widths):
     for j, w in enumerate(widths):
         cols = tuple((col + c) % 4 for c in range(w))
         col += w
-        gain = tape.choice('gain', [1.0, 25.0, 0.04, 300.0])
+        gain = tape.choice('gain', [1.0, 25.0, 0.04, 300.0, 1e-9, 1e7, 3e-6])
         gains.append(gain)
         fn = partial(ad_sum, cols=cols, gain=gain)
         nm = 's%d' % j
@@ -190,7 +190,8 @@ def run_adhist(tape, out):
         rounds = tape.int('rounds', 1, 4)
         rs = np.random.RandomState(tape.int('data_seed', 0, 9999))
         probe_n = tape.choice('probe_rows', [3, 1, 2, 5])     # batch size 1 included
-        probe = {s: (rs.normal(size=(probe_n,) + ((w,) if w > 1 else ())) * (1 + j))
+        probe = {s: (rs.normal(size=(probe_n,) + ((w,) if w > 1 else ())) * (1 + j)
+                     * spec['gains'][j])
                  for j, (s, w) in enumerate(zip(spec['sums'], widths))}
         Up = np.column_stack([probe[s] for s in spec['sums']])
         prev_cols = None
@@ -201,7 +202,10 @@ def run_adhist(tape, out):
             if tape.chance('explicit_init', 1, 2):
                 node.init_adaptation_round()
             n_rows = tape.int('rows', 4, 40)
-            data = [rs.normal(loc=j, scale=0.5 + j, size=(n_rows,) + ((w,) if w > 1 else ()))
+            # the gain multiplies location and spread alike (|mean|/std stays moderate, so the
+            # running-variance recurrence is well conditioned; tiny and huge scales are legal)
+            data = [spec['gains'][j] * rs.normal(loc=j, scale=0.5 + j,
+                                                 size=(n_rows,) + ((w,) if w > 1 else ()))
                     for j, w in enumerate(widths)]
             # partition into add_data calls
             cuts = [0]
